@@ -109,17 +109,19 @@ func init() {
 				return
 			}
 			n := 0
-			for _, b := range fn.Blocks {
-				ret, ok := b.Instrs[len(b.Instrs)-1].(*ssa.Return)
-				if !ok || len(ret.Results) != 2 {
+			for _, rp := range returnPaths(fn) {
+				ret, b := rp.ret, rp.from
+				if len(rp.vals) != 2 {
 					continue
 				}
-				if v, isC := constBool(ret.Results[1]); !isC || !v {
+				// every way needCheck can come out true (the constant, or a computed condition such as
+				// `ReConnect() == nil`)
+				if v, isC := constBool(rp.vals[1]); isC && !v {
 					continue
 				}
 				n++
 				spaced, stamped, blocked := false, false, false
-				for _, f := range facts(b) {
+				for _, f := range rp.pathFacts() {
 					c, okc := normFact(f)
 					if !okc {
 						continue
@@ -134,7 +136,7 @@ func init() {
 					}
 				}
 				eachInstr(fn, func(in ssa.Instruction) {
-					if st, ok := in.(*ssa.Store); ok && isFieldOf(st.Addr, adapterT, "lastBlockTime") && instrDominates(in, ret) {
+					if st, ok := in.(*ssa.Store); ok && isFieldOf(st.Addr, adapterT, "lastBlockTime") && (instrDominates(in, ret) || instrDominates(in, b.Instrs[len(b.Instrs)-1])) {
 						for _, f := range facts(in.Block()) {
 							if c, okc := normFact(f); okc && c.Op == token.GEQ {
 								if bo, isB := c.X.(*ssa.BinOp); isB && bo.Op == token.SUB && strings.HasSuffix(pathOf(bo.Y), ".lastBlockTime") {
@@ -146,8 +148,8 @@ func init() {
 				})
 				r.Check(spaced && stamped && blocked, fname(fn), "probe at most every tryTimeInterval", ret.Pos(), "needCheck only for a blocked endpoint after >= 30 s, with lastBlockTime restamped", "needCheck=true is returned without (spacing>=30s:%v, restamp:%v, only-when-blocked:%v): a blocked endpoint is probed too often or an active one is probed", spaced, stamped, blocked)
 			}
-			if n != 1 {
-				r.Bad(fname(fn), "needCheck returns", fn.Pos(), "found %d returns with needCheck=true (expected 1)", n)
+			if n < 1 {
+				r.Bad(fname(fn), "needCheck returns", fn.Pos(), "found %d returns with needCheck=true (expected at least 1)", n)
 			}
 		}})
 
